@@ -501,7 +501,7 @@ func cmdRun(args []string) int {
 	knownPath := fs.String("known", "", "")
 	runsFlag := fs.Int("runs", 0, "override the number of runs")
 	div := fs.Int("div", 1, "divide the tier's number of runs (reduced exploration, e.g. cross matrix)")
-	maxsec := fs.Float64("maxsec", 0, "wall clock cap per worker (0: tier default)")
+	maxsec := fs.Float64("maxsec", 0, "CPU time cap per worker in seconds (0: tier default)")
 	tmp := fs.String("tmp", os.TempDir(), "")
 	corpus := fs.String("corpus", "", "directory with kept counterexamples (<dir>/<property>/*.json)")
 	fs.Parse(args)
@@ -741,7 +741,7 @@ func cmdRun(args []string) int {
 			"determinism_runs_reexecuted_in_second_process": detChecked,
 			"determinism_digest_mismatches":                 detMismatch,
 			"determinism_tick_only_mismatches":              tickMismatch,
-			"truncated_by_wall_clock_cap":                   tot.Truncated,
+			"truncated_by_cpu_time_cap":                     tot.Truncated,
 			"yield_points":                                  simyield.NumSites,
 			"real_components":                               p.Real,
 			"stubbed_components":                            p.Stub,
